@@ -222,6 +222,110 @@ Section JsonRetain.
     exists L. split; [|split; [exact SL|exact EL]].
     rewrite RL. cbn [jrun jstep s_stack]. unfold prepend. cbn [fst snd]. rewrite app_nil_r. reflexivity.
   Qed.
+
+  (* records inside a container that sits below a chain of single-member objects, seen from an
+     object frame [f]: none of the objects on the way is on the path *)
+  Lemma json_nest : forall keys key arr recs f r rel rest,
+    objmode f -> Inv pm (f :: r) ->
+    (forall k, 1 <= k <= length (key :: keys) ->
+       pm (chain_of (f :: r) ++ firstn k (jkeys_chain (key :: keys))) = false) ->
+    Forall (jrecord (chain_of (f :: r) ++ jkeys_chain (key :: keys)) (negb arr)) recs ->
+    exists L l,
+      run (mkS (f :: r) None SNone) rel (jevents true (jnest key keys arr recs) ++ rest) =
+      prepend L (run (mkS (add_kids f l :: r) None SNone) (skipn (length L) rel) rest) /\
+      Forall (fun d => snd d = retained (mkS (f :: r) None SNone) + length (key :: keys) + tree_size (fst d)) L /\
+      map fst L = filter pred (map (jkid (negb arr)) recs).
+  Proof.
+    induction keys as [|k2 keys IH]; intros key arr recs f r rel rest Hm HI Hanc Hrecs.
+    - (* the container itself *)
+      assert (Hp1 : pm (chain_of (f :: r) ++ [fname (PF key)]) = false).
+      { apply (Hanc 1). cbn [length]. lia. }
+      cbn [jnest jkeys_chain map] in *.
+      assert (Hcommon : forall flags ctok kd,
+                mode kd (mkF ElementNode key (FJson flags) []) ->
+                (forall g' s, jstep pm pred has_filter false (mkS (g' :: f :: r) None s) ctok =
+                              wrap_up pm pred has_filter false (mkS (g' :: f :: r) None s)) ->
+                Forall (jrecord (chain_of (f :: r) ++ [([], key)]) kd) recs ->
+                exists L l,
+                  run (mkS (mkF ElementNode key (FJson flags) [] :: f :: r) None SNone) rel
+                      (flat_map (jevents kd) recs ++ ctok :: rest) =
+                  prepend L (run (mkS (add_kids f l :: r) None SNone) (skipn (length L) rel) rest) /\
+                  Forall (fun d => snd d = retained (mkS (f :: r) None SNone) + 1 + tree_size (fst d)) L /\
+                  map fst L = filter pred (map (jkid kd) recs)).
+      { intros flags ctok kd Hmg Hc Hr.
+        set (g := mkF ElementNode key (FJson flags) []).
+        assert (HI1 : Inv pm (g :: f :: r)).
+        { apply inv_push; try assumption; try reflexivity. constructor. }
+        assert (Hc1 : chain_of (g :: f :: r) = chain_of (f :: r) ++ [([], key)]).
+        { destruct (inv_shape pm _ HI) as (f0 & fs0 & Hrev & _).
+          apply (chain_of_push g (f :: r) f0 fs0 Hrev). }
+        rewrite <- Hc1 in Hr.
+        destruct (json_records recs kd g (f :: r) rel (ctok :: rest) Hmg HI1 Hr) as (L & RL & SL & EL).
+        exists L, [close_frame g]. split; [|split; [|exact EL]].
+        - rewrite RL. f_equal;
+            try apply (finish_plain pm pred has_filter _ ctok g f r _ rest (Hc g _)).
+        - eapply Forall_impl; [|exact SL]. intros d Hd. cbn beta in Hd. rewrite Hd.
+          rewrite (retained_push g (f :: r) SNone SNone) by discriminate.
+          unfold g, close_frame. cbn [f_ty f_data f_fs f_kids tree_size fold_right]. lia. }
+      destruct arr; cbn [negb jevents app] in *; rewrite <- app_assoc; cbn [app];
+        rewrite (run_cont pm pred has_filter _ _ _ _ _ (step_key pm pred has_filter f r _ key Hm));
+        rewrite cc_after by (try assumption; reflexivity);
+        unfold after_check; rewrite Hp1; unfold PF.
+      + rewrite (run_cont pm pred has_filter _ _ _ _ _ (step_prop_arr pm pred has_filter _ _ _ _)).
+        exact (Hcommon (N.lor J_PROP J_ARR) JCloseArr false (conj eq_refl eq_refl) (fun g' s => eq_refl) Hrecs).
+      + rewrite (run_cont pm pred has_filter _ _ _ _ _ (step_prop_obj pm pred has_filter _ _ _ _)).
+        exact (Hcommon (N.lor J_PROP J_OBJ) JCloseObj true eq_refl (fun g' s => eq_refl) Hrecs).
+    - (* one more object on the way down *)
+      assert (Hp1 : pm (chain_of (f :: r) ++ [fname (PF key)]) = false).
+      { apply (Hanc 1). cbn [length]. lia. }
+      cbn [jnest jevents app flat_map]. rewrite app_nil_r, <- app_assoc. cbn [app].
+      rewrite (run_cont pm pred has_filter _ _ _ _ _ (step_key pm pred has_filter f r _ key Hm)).
+      rewrite cc_after by (try assumption; reflexivity).
+      unfold after_check. rewrite Hp1. unfold PF.
+      rewrite (run_cont pm pred has_filter _ _ _ _ _ (step_prop_obj pm pred has_filter _ _ _ _)).
+      set (g := mkF ElementNode key (FJson (N.lor J_PROP J_OBJ)) []).
+      assert (HI1 : Inv pm (g :: f :: r)).
+      { apply inv_push; try assumption; try reflexivity. constructor. }
+      assert (Hc1 : chain_of (g :: f :: r) = chain_of (f :: r) ++ [([], key)]).
+      { destruct (inv_shape pm _ HI) as (f0 & fs0 & Hrev & _).
+        apply (chain_of_push g (f :: r) f0 fs0 Hrev). }
+      destruct (IH k2 arr recs g (f :: r) rel (JCloseObj :: rest) eq_refl HI1) as (L & l & RL & SL & EL).
+      + intros k Hk. rewrite Hc1, <- app_assoc. apply (Hanc (S k)). cbn [length] in *. lia.
+      + rewrite Hc1, <- app_assoc. exact Hrecs.
+      + exists L, [close_frame (add_kids g l)]. split; [|split; [|exact EL]].
+        * rewrite RL. f_equal;
+            try apply (finish_plain pm pred has_filter _ JCloseObj (add_kids g l) f r _ rest eq_refl).
+        * eapply Forall_impl; [|exact SL]. intros d Hd. cbn beta in Hd. rewrite Hd.
+          rewrite (retained_push g (f :: r) SNone SNone) by discriminate.
+          unfold g, close_frame. cbn [f_ty f_data f_fs f_kids tree_size fold_right length]. lia.
+  Qed.
+
+  (* {"k":{...{"kn": C}...}} with C an object keyed by ids or an array of records *)
+  Theorem retained_bounded_json_nested_proof : forall key keys arr recs rel,
+    (forall k, k <= length (key :: keys) -> pm (firstn k (jkeys_chain (key :: keys))) = false) ->
+    Forall (jrecord (jkeys_chain (key :: keys)) (negb arr)) recs ->
+    exists L,
+      run j_init rel (jdoc_events (JO [] [jnest key keys arr recs])) = (L, FEOF) /\
+      Forall (fun d => snd d = 1 + length (key :: keys) + tree_size (fst d)) L /\
+      map fst L = filter pred (map (jkid (negb arr)) recs).
+  Proof.
+    intros key keys arr recs rel Hanc Hrecs.
+    pose proof (Hanc 0 (Nat.le_0_l _)) as Hroot. cbn [firstn] in Hroot.
+    unfold jdoc_events, j_init. cbn [jevents app flat_map]. rewrite app_nil_r.
+    change (mkF DocumentNode [] (FJson 1) []) with (rootf 1 []).
+    assert (Hstep : jstep pm pred has_filter false (mkS [rootf 1 []] None SNone) JOpenObj
+                    = RCont (candidate_check pm (mkS [rootf 3 []] None SNone))) by reflexivity.
+    rewrite (run_cont pm pred has_filter _ _ _ _ _ Hstep), cc_root, Hroot.
+    assert (HI : Inv pm [rootf 3 []]).
+    { exists (rootf 3 []), []. split; [reflexivity|]. split; [constructor|].
+      cbn [downT rootf f_ty f_data f_fs f_kids opt_list app].
+      rewrite has_match_unfold, Hroot. reflexivity. }
+    destruct (json_nest keys key arr recs (rootf 3 []) [] rel [JCloseObj] eq_refl HI) as (L & l & RL & SL & EL).
+    - intros k Hk. apply Hanc. lia.
+    - exact Hrecs.
+    - exists L. split; [|split; [exact SL|exact EL]].
+      rewrite RL. cbn [jrun jstep s_stack]. unfold prepend. cbn [fst snd]. rewrite app_nil_r. reflexivity.
+  Qed.
 End JsonRetain.
 
 (* ---- record-at-a-time readers ---------------------------------------------------------------------- *)
@@ -266,5 +370,24 @@ Section FlatRetain.
           rewrite removelast_last. exact Hk.
       + apply (IH kids0); [exact Hrest|]. unfold flat_prologue. cbn [fl_target fl_kids].
         rewrite removelast_last. exact Hk.
+  Qed.
+
+  Lemma flat_release_prologue : forall st,
+    flat_prologue R (flat_release R st) = flat_prologue R st.
+  Proof.
+    intros [k t]. unfold flat_release, flat_prologue. cbn [fl_target fl_kids].
+    destruct t; cbn [fl_target]; reflexivity.
+  Qed.
+
+  (* whether and when the caller releases makes no difference to what the reader retains *)
+  Theorem flat_run_rel_eq_proof : forall recs rel st,
+    flat_run_rel R rsize standalone above st rel recs = frun st recs.
+  Proof.
+    induction recs as [|rc rest IH]; intros rel st; [reflexivity|].
+    cbn [flat_run_rel flat_run].
+    assert (E : flat_prologue R (if hd false rel then flat_release R st else st) = flat_prologue R st).
+    { destruct (hd false rel); [apply flat_release_prologue|reflexivity]. }
+    rewrite E. destruct (flat_step R rsize standalone above (flat_prologue R st) rc) as [st1 d].
+    rewrite IH. reflexivity.
   Qed.
 End FlatRetain.
